@@ -358,6 +358,27 @@ pub fn gen_c11(sh: &mut Shards, o: &Opts) -> serde_json::Value {
                     pixels += (w * h) as u64;
                 }
                 let px: Px = (0..w * h).map(|_| [rng.unit() as f32, rng.unit() as f32, rng.unit() as f32]).collect();
+                // the same size again as RUNS of a few colours (run lengths 1..4, so runs start off the chroma grid): an encoder
+                // that skips work for a pixel equal to its predecessor must still refresh everything it carries along
+                let palette: [[f32; 3]; 4] = [[rng.unit() as f32, rng.unit() as f32, rng.unit() as f32], [rng.unit() as f32, rng.unit() as f32, rng.unit() as f32], [1.0, 1.0, 0.0], [0.0, 0.25, 1.0]];
+                let mut runs: Px = Vec::with_capacity(w * h);
+                while runs.len() < w * h {
+                    let col = palette[rng.below(4) as usize];
+                    for _ in 0..=rng.below(4) {
+                        runs.push(col);
+                    }
+                }
+                runs.truncate(w * h);
+                if w * h > 1 {
+                    for call in ["RgbToYuv", "LinToYuv"] {
+                        if c.n == 8 && k % 2 == 1 {
+                            to_yuv_event::<u8>(sh, call, &c, 8, w, h, &runs);
+                        } else {
+                            to_yuv_event::<u16>(sh, call, &c, 16, w, h, &runs);
+                        }
+                        n += 1;
+                    }
+                }
                 for call in ["RgbToYuv", "LinToYuv", "XybToYuv"] {
                     let src: Px = if call == "XybToYuv" { Xyb::from(LinearRgb::new(px.clone(), w, h).unwrap()).data().to_vec() } else { px.clone() };
                     if c.n == 8 && k % 2 == 1 {
